@@ -93,10 +93,16 @@ Definition generic_casting (cast : value -> value) (v : value) : res value :=
 
 (* ---- generic._Auxiliar.validate_string_property_formatted_as_json; [loads] = json.loads, None = it raised
         (the code catches Exception: nothing json.loads raises escapes).  Since 4808678 an empty object -- given
-        directly or as JSON text -- is refused (ValueError), so that it is not taken for a StatementCondition ---- *)
+        directly or as JSON text -- is refused (ValueError), so that it is not taken for a StatementCondition.  Since 4e7f8be
+        (fix F29) text that is a JSON STRING LITERAL is kept as written: what it encodes is text again, and decoding it peeled one
+        layer of quotes at every re-validation of the dumped model ---- *)
 Definition json_prepass (loads : str -> option value) (v : value) : res value :=
   let v' := match v with
-            | VStr s => match loads s with Some j => j | None => VStr s end
+            | VStr s => match loads s with
+                        | Some (VStr _) => VStr s
+                        | Some j => j
+                        | None => VStr s
+                        end
             | _ => v
             end in
   match v' with
